@@ -3,7 +3,7 @@ From Coq Require Import List String.
 From VQ.Gen Require Import p_kmeans.
 Import ListNotations.
 Open Scope string_scope.
-Lemma pin_p_kmeans : p_kmeans =
+Definition pinned_p_kmeans : list string :=
   ["kmeans.init:sample_fn(samples, num_clusters)";
    "kmeans.loop:range(num_iters)";
    "kmeans.body:if use_cosine_sim:     dists = samples @ rearrange(means, 'h n d -> h d n') else:     dists = -cdist(samples, means)";
@@ -44,4 +44,5 @@ Lemma pin_p_kmeans : p_kmeans =
    "CosineSimCodebook.init:self.initted.data.copy_(torch.Tensor([True]))";
    "CosineSimCodebook.initted_buffer:self.register_buffer('initted', torch.Tensor([not kmeans_init]))";
    "CosineSimCodebook.call:self.init_embed_(flatten, mask=mask)"].
+Lemma pin_p_kmeans : p_kmeans = pinned_p_kmeans.
 Proof. reflexivity. Qed.
